@@ -363,6 +363,7 @@ def decide(make, h, name, k, build, stats, init="free", max_prefix=6, twin=None,
     ts = h.translate()
     frames, cons = unroll(ts, k, init=init, tag="w")
     assumes, bad = build(h, frames)
+    twin_failed = None
     r, model = solve(cons + list(assumes) + [bad], stats, name)
     if sample is not None and len(stats.samples) < 6:
         stats.samples.append(dict(sample, query=name, frames=k, init=init, verdict=r))
@@ -371,8 +372,13 @@ def decide(make, h, name, k, build, stats, init="free", max_prefix=6, twin=None,
         ta, ev = twin(h, frames)
         rt, _ = solve(cons + list(ta) + [ev], None, name + "/twin", want_model=False)
         if rt != "sat":
-            raise Inconclusive(f"vacuity twin of {name} is {rt}: the harness cannot reach the event")
-        stats.twins_sat += 1
+            # an unreachable event makes an "unsat" verdict vacuous; a counterexample of the main query, if it can be
+            # rooted at reset and reproduced on the simulator, stands on its own
+            twin_failed = f"vacuity twin of {name} is {rt}: the harness cannot reach the event"
+            if r != "sat":
+                raise Inconclusive(twin_failed)
+        else:
+            stats.twins_sat += 1
     if r == "unsat":
         return None
     # candidate counterexample
@@ -402,6 +408,8 @@ def decide(make, h, name, k, build, stats, init="free", max_prefix=6, twin=None,
         return Violation(name, stim, p, k, detail)
     if undecided:
         raise Inconclusive(f"{name}: free-state counterexample exists but {undecided} rooting queries timed out")
+    if twin_failed:
+        raise Inconclusive(twin_failed)
     stats.unrooted += 1
     stats.notes.append(f"{name}: free-state counterexample not reachable from reset within "
                        f"{max_prefix} cycles; reset-rooted bounded verdict holds (all-state strengthening failed)")
